@@ -190,6 +190,11 @@ PROPS = {
     },
     "C04": {
         "verus": [("tree_node", ["TreeNode.set_child", "lemma_sum"]), "azks_audit", "azks_walk"],
+        "search": True,
+        "always_search": True,
+        "bounded_search": [{"obligation": "replay/c04#all_ranges",
+                            "bound": "one fixed 5-epoch history (new labels, updates, a no-op publish, a batch naming one label twice); every pair (s, e) with 0 <= s, e <= current + 1 after every publish; "
+                                     "sequential and parallel insertion; both configurations; in-memory database - a cross-check of the whole statement for what lies between the verified units (trie insertion)"}],
         "scope": "partial: batch_insert_nodes leaves the tree untouched for an empty batch (the recursive insertion and the root write are entered only with a non-empty set - "
                  "the auditor's start tree of an audit from epoch 0 depends on it) and advances the epoch by one; get_append_only_proof refuses every range with end <= start or end beyond the latest epoch, and for an accepted range returns exactly one proof per epoch "
                  "start..end (epochs list = start, start+1, .., end-1; |proofs| = |epochs|; proof i = the walk for (start+i, start+i+1) from the root as of the latest epoch); "
